@@ -45,3 +45,10 @@ def nontrivial(case):
 def shrink(exe, case, impl, model, msg):
     import vlib
     return vlib.shrink_history(exe, ENGINE, case, "automata")
+
+
+def search(rng, diff_cases, tier):
+    out = []
+    for c in diff_cases[:20]:
+        out += intensify(c, rng)
+    return out
